@@ -113,6 +113,11 @@ Definition print_mux (m : smux) : bytes :=
   | Muxed ds => 32 :: 109 :: ds
   end.
 
+(** Layout parameter: [cr] is the run of spaces / carriage returns written before EVERY line end
+    ([] = LF files, [13] = CRLF files, [32; 32] = two trailing spaces, ...) *)
+Section Layout.
+Variable cr : bytes.
+
 (** SG_ name[ M| m<k>] : start | size @ (0|1) (+|-) ( factor , offset ) [ min | max ] "unit" r1 , r2 ... LF *)
 Definition print_signal (s : ssignal) : bytes :=
   kw_signal ++ 32 :: ss_name s ++ print_mux (ss_mux s) ++ 32 :: 58 :: 32 :: ss_start s ++ 32 :: 124 :: 32 :: ss_size s
@@ -120,7 +125,7 @@ Definition print_signal (s : ssignal) : bytes :=
   :: 32 :: 40 :: 32 :: print_num (ss_factor s) ++ 32 :: 44 :: 32 :: print_num (ss_offset s)
   ++ 32 :: 41 :: 32 :: 91 :: 32 :: print_num (ss_min s) ++ 32 :: 124 :: 32 :: print_num (ss_max s)
   ++ 32 :: 93 :: 32 :: 34 :: ss_unit s ++ 34 :: 32 :: ss_receiver s
-  ++ concat (map (fun r => 32 :: 44 :: 32 :: r) (ss_receivers s)) ++ [10].
+  ++ concat (map (fun r => 32 :: 44 :: 32 :: r) (ss_receivers s)) ++ cr ++ [10].
 
 Definition print_obj (o : sobj) : bytes :=
   match o with
@@ -173,37 +178,37 @@ Definition print_attr_value (v : sattr_value) : bytes :=
   | AVEnumIndex i => 32 :: i
   end.
 
-(** the symbol lines of NS_: TAB symbol LF each *)
-Definition ns_text (syms : list bytes) : bytes := concat (map (fun s => 9 :: s ++ [10]) syms).
+(** the symbol lines of NS_: TAB symbol line-end each *)
+Definition ns_text (syms : list bytes) : bytes := concat (map (fun s => 9 :: s ++ cr ++ [10]) syms).
 
 Definition print_def (d : sdef) : bytes :=
   match d with
-  | SNewSymbols syms => kw_new_symbols ++ 32 :: 58 :: 10 :: ns_text syms
-  | SAttr o name body => kw_attribute ++ print_attr_obj o ++ 32 :: print_quoted name ++ print_attr_body body ++ 32 :: 59 :: [10]
-  | SAttrDefault name v => kw_attribute_default ++ 32 :: print_quoted name ++ print_attr_value v ++ 32 :: 59 :: [10]
+  | SNewSymbols syms => kw_new_symbols ++ 32 :: 58 :: cr ++ 10 :: ns_text syms
+  | SAttr o name body => kw_attribute ++ print_attr_obj o ++ 32 :: print_quoted name ++ print_attr_body body ++ 32 :: 59 :: cr ++ [10]
+  | SAttrDefault name v => kw_attribute_default ++ 32 :: print_quoted name ++ print_attr_value v ++ 32 :: 59 :: cr ++ [10]
   | SAttrValue name o v =>
-    kw_attribute_value ++ 32 :: print_quoted name ++ print_obj o ++ print_attr_value v ++ 32 :: 59 :: [10]
-  | SComment o t => kw_comment ++ print_obj o ++ 32 :: 34 :: t ++ 34 :: 32 :: 59 :: [10]
-  | SValues (Some i) n vs => kw_value_descriptions ++ 32 :: i ++ 32 :: n ++ print_values vs ++ 32 :: 59 :: [10]
-  | SValues None n vs => kw_value_descriptions ++ 32 :: n ++ print_values vs ++ 32 :: 59 :: [10]
-  | SValueTable n vs => kw_value_table ++ 32 :: n ++ print_values vs ++ 32 :: 59 :: [10]
+    kw_attribute_value ++ 32 :: print_quoted name ++ print_obj o ++ print_attr_value v ++ 32 :: 59 :: cr ++ [10]
+  | SComment o t => kw_comment ++ print_obj o ++ 32 :: 34 :: t ++ 34 :: 32 :: 59 :: cr ++ [10]
+  | SValues (Some i) n vs => kw_value_descriptions ++ 32 :: i ++ 32 :: n ++ print_values vs ++ 32 :: 59 :: cr ++ [10]
+  | SValues None n vs => kw_value_descriptions ++ 32 :: n ++ print_values vs ++ 32 :: 59 :: cr ++ [10]
+  | SValueTable n vs => kw_value_table ++ 32 :: n ++ print_values vs ++ 32 :: 59 :: cr ++ [10]
   | SSigValType i n colon t =>
-    kw_signal_value_type ++ 32 :: i ++ 32 :: n ++ (if colon then [32; 58] else []) ++ 32 :: t ++ 32 :: 59 :: [10]
-  | SMsgTx i txs => kw_message_transmitters ++ 32 :: i ++ 32 :: 58 :: concat (map print_tx txs) ++ 32 :: 59 :: [10]
+    kw_signal_value_type ++ 32 :: i ++ 32 :: n ++ (if colon then [32; 58] else []) ++ 32 :: t ++ 32 :: 59 :: cr ++ [10]
+  | SMsgTx i txs => kw_message_transmitters ++ 32 :: i ++ 32 :: 58 :: concat (map print_tx txs) ++ 32 :: 59 :: cr ++ [10]
   | SEnvVar n t mn mx u init i acc node nodes =>
     kw_envvar ++ 32 :: n ++ 32 :: 58 :: 32 :: t ++ 32 :: 91 :: 32 :: print_num mn ++ 32 :: 124 :: 32 :: print_num mx
     ++ 32 :: 93 :: 32 :: 34 :: u ++ 34 :: 32 :: print_num init ++ 32 :: i ++ 32 :: access_name acc ++ 32 :: node
-    ++ concat (map (fun r => 32 :: 44 :: 32 :: r) nodes) ++ 32 :: 59 :: [10]
-  | SEnvVarData n sz => kw_envvar_data ++ 32 :: n ++ 32 :: 58 :: 32 :: sz ++ 32 :: 59 :: [10]
+    ++ concat (map (fun r => 32 :: 44 :: 32 :: r) nodes) ++ 32 :: 59 :: cr ++ [10]
+  | SEnvVarData n sz => kw_envvar_data ++ 32 :: n ++ 32 :: 58 :: 32 :: sz ++ 32 :: 59 :: cr ++ [10]
   | SMessage i n sz tx sigs =>
-    kw_message ++ 32 :: i ++ 32 :: n ++ 32 :: 58 :: 32 :: sz ++ 32 :: tx ++ 10 :: concat (map print_signal sigs)
-  | SVersion s => kw_version ++ 32 :: 34 :: s ++ [34; 10]
-  | SBitTiming None => kw_bit_timing ++ [58; 10]
-  | SBitTiming (Some (b, None)) => kw_bit_timing ++ 58 :: 32 :: b ++ [10]
+    kw_message ++ 32 :: i ++ 32 :: n ++ 32 :: 58 :: 32 :: sz ++ 32 :: tx ++ cr ++ 10 :: concat (map print_signal sigs)
+  | SVersion s => kw_version ++ 32 :: 34 :: s ++ 34 :: cr ++ [10]
+  | SBitTiming None => kw_bit_timing ++ 58 :: cr ++ [10]
+  | SBitTiming (Some (b, None)) => kw_bit_timing ++ 58 :: 32 :: b ++ cr ++ [10]
   | SBitTiming (Some (b, Some (b1, b2))) =>
-    kw_bit_timing ++ 58 :: 32 :: b ++ 32 :: 58 :: 32 :: b1 ++ 32 :: 44 :: 32 :: b2 ++ [10]
-  | SNodes ns => kw_nodes ++ 58 :: sp_list (fun n => n) ns ++ [10]
-  | SUnknown kw ts => kw ++ sp_list print_utok ts ++ [10]
+    kw_bit_timing ++ 58 :: 32 :: b ++ 32 :: 58 :: 32 :: b1 ++ 32 :: 44 :: 32 :: b2 ++ cr ++ [10]
+  | SNodes ns => kw_nodes ++ 58 :: sp_list (fun n => n) ns ++ cr ++ [10]
+  | SUnknown kw ts => kw ++ sp_list print_utok ts ++ cr ++ [10]
   end.
 
 Fixpoint print (ds : list sdef) : bytes :=
@@ -241,7 +246,7 @@ Fixpoint elab_signals (line off : Z) (sigs : list ssignal) : list signal_def :=
 
 (** the header line "BO_ id name : size tx LF" *)
 Definition message_header (i n sz tx : bytes) : bytes :=
-  kw_message ++ 32 :: i ++ 32 :: n ++ 32 :: 58 :: 32 :: sz ++ 32 :: tx ++ [10].
+  kw_message ++ 32 :: i ++ 32 :: n ++ 32 :: 58 :: 32 :: sz ++ 32 :: tx ++ cr ++ [10].
 
 (** line ends inside a string literal, and the value the parser reads for a literal that contains
     them: each line end becomes one space (parser.go, string()) *)
@@ -406,6 +411,31 @@ Fixpoint elab_from (ctx : actx) (line off : Z) (ds : list sdef) : list def :=
   end.
 
 Definition elaborate (ds : list sdef) : list def := elab_from [] 1 0 ds.
+
+(** files with blank lines: every definition is preceded by a (possibly empty) block of blank lines *)
+Definition item : Type := bytes * sdef.
+
+Fixpoint print_items (its : list item) : bytes :=
+  match its with
+  | [] => []
+  | (g, d) :: t => g ++ print_def d ++ print_items t
+  end.
+
+Fixpoint elab_items (ctx : actx) (line off : Z) (its : list item) : list def :=
+  match its with
+  | [] => []
+  | (g, d) :: t =>
+    elab_def_ctx ctx (line + nl_count g) (off + blen g) d
+    :: elab_items (ctx_step ctx d) (line + nl_count g + def_lines d) (off + blen g + blen (print_def d)) t
+  end.
+
+(** the whole file: items, then a final block of blank lines *)
+Definition print_file (its : list item) (gend : bytes) : bytes := print_items its ++ gend.
+Definition elaborate_file (its : list item) : list def := elab_items [] 1 0 its.
+
+End Layout.
+
+Definition plain (ds : list sdef) : list item := map (fun d => ([], d)) ds.
 
 (** ------------------------------------------------------------------ well-formedness *)
 
@@ -585,3 +615,23 @@ Fixpoint wf_defs (ctx : actx) (ds : list sdef) : Prop :=
 
 (** a whole file: no attribute definition precedes it *)
 Definition wf_file (ds : list sdef) : Prop := wf_defs [] ds.
+
+(** ------------------------------------------------------------------ layout *)
+
+(** the characters written before a line end: spaces and carriage returns *)
+Definition cr_ok (cr : bytes) : Prop := Forall (fun c => c = 32 \/ c = 13) cr.
+
+(** blank lines: spaces, carriage returns and line ends; empty, or ending in a line end (the next
+    definition starts in column 1). Tabs are excluded: after NS_ a tab starts a symbol line. *)
+Definition blank_char (c : Z) : Prop := c = 32 \/ c = 13 \/ c = 10.
+Definition blank_block (g : bytes) : Prop := Forall blank_char g /\ (g = [] \/ exists g', g = g' ++ [10]).
+
+Fixpoint wf_items (ctx : actx) (its : list item) : Prop :=
+  match its with
+  | [] => True
+  | (g, d) :: t => blank_block g /\ wf_sdef_ctx ctx d /\ wf_items (ctx_step ctx d) t
+  end.
+
+(** a whole file with its layout: line-end run, items, final blank lines *)
+Definition wf_lfile (cr : bytes) (its : list item) (gend : bytes) : Prop :=
+  cr_ok cr /\ wf_items [] its /\ blank_block gend.
